@@ -4,7 +4,7 @@ from .model import *
 
 
 TRICKY_NAMES = ["index", "value", "field_value", "temp", "effective_index", "extracted_bits", "mask", "one", "raw", "r#type", "r#fn", "r#match",
-                "self_", "x_", "builder_", "zero", "default_", "new_", "f", "with", "set"]
+                "self_", "x_", "builder_", "zero", "default_", "new_", "f", "with", "set", "r#ref", "r#return", "reserved", "rw"]
 
 
 def names_structs():
